@@ -175,7 +175,7 @@ func (r *recListener) count(ledgerName string) int {
 var errInjected = errors.New("verif: injected database failure")
 
 type faultPlan struct {
-	Kind string // "", "stmt-before", "stmt-after", "commit"
+	Kind string // "", "stmt-before", "stmt-after", "commit", "deadlock", "refused"
 	At   int    // 1-based position among the statements / commits of the operation
 }
 
@@ -214,6 +214,11 @@ func withFault(sim *pgsim.DB, plan faultPlan, op func()) opTrace {
 		if plan.Kind == "stmt-before" && tr.Stmts == plan.At {
 			tr.Fired = true
 			return errInjected
+		}
+		if plan.Kind == "refused" && tr.Stmts == plan.At && !tr.Fired {
+			// the database has no connection slot left for this statement: the service retries the whole request
+			tr.Fired = true
+			return &pgconn.PgError{Severity: "FATAL", Code: "53300", Message: "sorry, too many clients already"}
 		}
 		if plan.Kind == "deadlock" && tr.Stmts == plan.At && !tr.Fired {
 			// the statement is chosen as the victim of a deadlock: a retryable failure
